@@ -7,6 +7,7 @@ import numpy as np
 
 TYPES = [
     'range',
+    'range_step',
     'list_int',
     'list_str',
     'list_mixed',
@@ -27,6 +28,9 @@ def make_span(spec):
     ty, n, o = spec['type'], spec['n'], spec.get('origin', 0)
     if ty == 'range':
         return range(o, o + n)
+    if ty == 'range_step':
+        st = spec.get('step', 2)
+        return range(o, o + n * st, st)
     if ty == 'list_int':
         return list(range(o, o + n))
     if ty == 'list_str':
@@ -83,6 +87,8 @@ def absent_label(spec, variant=0, span=None):
         if isinstance(first, str):
             return first + 'z' if variant == 1 else 0
         return str(first) + 'z' if variant == 1 else 3
+    if ty == 'range_step':
+        return spec.get('origin', 0) + 1  # between two labels of the stepped range
     if ty in ('range', 'list_int', 'np_int', 'pd_index_int'):
         return spec.get('origin', 0) + spec['n'] + 5
     if ty in ('list_str', 'np_str', 'pd_index_str', 'list_mixed'):
